@@ -26,6 +26,9 @@ CLAIMED["C06"]=("deviation-bounded exhaustive enumeration of payload x container
 CLAIMED["C07"]=("deviation-bounded exhaustive enumeration of (record, layout, container, entry point) with both byte-order encodings compared pairwise",
   "Every logical record and layout within the deviation bound is encoded twice, little- and big-endian, in each of the five containers, and the two decode results (values, zone names and errors) are compared for every entry point.",
   "Trusted: the encoder writes embedded values left-justified per TIFF 6.0 in either order.", "DESIGN.md §6 C07")
+CLAIMED["C13"]=("deviation-bounded exhaustive enumeration (<=1 quick, <=3 thorough) of XMP records x serialisation styles, plus an exhaustive value-length x padding grid; generator cross-checked with encoding/xml",
+  "A record of 38 simple and 6 array properties is serialised with every combination of up to 1 (quick) / 3 (thorough) deviations over values, element/attribute form, absence, array sizes, quote character, attribute and element white space (space, LF, tab, CRLF, 37/130/600 blanks), white space before '>', leading junk, unknown properties and namespaces, a second rdf:Description, xap prefixes and neighbour swaps; ParseXmp's result is compared field by field with the record, and with the parse of the opposite (all-element) serialisation. A grid of every value length 1..1600 x padding menu x form checks the look-ahead steps: exact value for lengths <= 1024, error-or-exact beyond, never a wrong value, and the following property must survive.",
+  "Trusted: the serialiser (validated per execution by encoding/xml) and the expectation function in c13.go.", "DESIGN.md §6 C13")
 NOT_YET = {}
 def main():
     props=[json.loads(l) for l in open('/verif/properties.jsonl')]
